@@ -21,16 +21,29 @@ use vh_core::{NdjsonWriter, Rng, catch};
 mod common;
 use common::{build_soup, ia, ifaces_of, path_id, self_consistent};
 
-/// hard cap of the property (CPU time of the combining thread, so that machine load does not matter)
-const HARD_CAP_US: u64 = 10_000_000;
+/// a combine() call faster than this is never examined further
+const FAST_US: u64 = 100_000;
+/// CPU time of the child beyond which the parent declares the search runaway
+const RUNAWAY_CPU_US: u64 = 300_000_000;
 /// wall-clock safety net of the parent (tool protection, generous because the machine may be busy)
-const WALL_LIMIT: Duration = Duration::from_secs(240);
+const WALL_LIMIT: Duration = Duration::from_secs(900);
 
-/// polynomial bound of the property: c * n^3 with n = total number of AS entries (CPU microseconds)
-fn bound_us(n: u64) -> u64 {
-    (200_000 + 2 * n * n * n).min(HARD_CAP_US)
+/// Bounded, self-calibrating (a time measured on a shared/virtualised machine means nothing by itself):
+/// the time of a slow call (minimum of three measurements) is compared with the time of a fixed
+/// reference workload measured at the same moment (REF = combine over 6 x 6 x 6 twenty-AS segments,
+/// 252 AS entries, about 2.5 ms in a debug build).  Even so, ratios vary by almost an order of magnitude
+/// on an oversubscribed host, hence the wide margin: the monitor is meant to catch super-polynomial
+/// searches, not constant factors.
+///   allowed units = min(200 * (1 + (n/16)^3 / (252/16)^3), 4000)      n = AS entries + peer entries
+/// i.e. cubic in the input, hard cap 4000 reference units (about 10 s of an idle core).
+fn bound_units(n: u64) -> u64 {
+    let k = n / 16;
+    (200 * (1 + k * k * k / 3375)).min(4000)
 }
 
+/// CPU time of the calling thread (nanosecond resolution; getrusage has tick resolution only).  It includes
+/// kernel time spent on behalf of the thread and, on a virtualised host, stolen time: both are dealt
+/// with by taking the minimum of three runs and by comparing with a reference measured at the same moment.
 fn thread_cpu_us() -> u64 {
     let mut ts = libc::timespec { tv_sec: 0, tv_nsec: 0 };
     // SAFETY: plain syscall writing into a local struct
@@ -43,6 +56,8 @@ fn thread_cpu_us() -> u64 {
 struct RunOut {
     panic: Option<String>,
     cpu_us: u64,
+    /// time of the reference workload (0 = the call was fast and no calibration was needed)
+    ref_us: u64,
     paths: Vec<Vec<(u64, u16)>>,
     inconsistent: Vec<Value>,
     wrong_endpoints: usize,
@@ -52,9 +67,22 @@ fn run_combine(src: u64, dst: u64, cores: &[UnsignedPathSegment], ncs: &[Unsigne
     let (c, n) = (cores.to_vec(), ncs.to_vec());
     let t0 = thread_cpu_us();
     let r = catch(|| combine(ia(src), ia(dst), c, n));
-    let cpu_us = thread_cpu_us() - t0;
+    let mut cpu_us = thread_cpu_us() - t0;
+    let mut ref_us = 0;
+    if cpu_us > FAST_US && r.is_ok() {
+        // slow: measure twice more (minimum) and calibrate against the reference workload
+        for _ in 0..2 {
+            let (c, n) = (cores.to_vec(), ncs.to_vec());
+            let t0 = thread_cpu_us();
+            let _ = catch(|| combine(ia(src), ia(dst), c, n));
+            cpu_us = cpu_us.min(thread_cpu_us() - t0);
+        }
+        if cpu_us > FAST_US {
+            ref_us = reference_us();
+        }
+    }
     match r {
-        Err(p) => RunOut { panic: Some(p), cpu_us, paths: vec![], inconsistent: vec![], wrong_endpoints: 0 },
+        Err(p) => RunOut { panic: Some(p), cpu_us, ref_us, paths: vec![], inconsistent: vec![], wrong_endpoints: 0 },
         Ok(paths) => {
             let mut out = vec![];
             let mut inc = vec![];
@@ -71,9 +99,47 @@ fn run_combine(src: u64, dst: u64, cores: &[UnsignedPathSegment], ncs: &[Unsigne
                 }
                 out.push(ifs);
             }
-            RunOut { panic: None, cpu_us, paths: out, inconsistent: inc, wrong_endpoints: wrong }
+            RunOut { panic: None, cpu_us, ref_us, paths: out, inconsistent: inc, wrong_endpoints: wrong }
         }
     }
+}
+
+/// "fan" soup: k up segments over ASes first_up.., k core segments, k down segments (distinct interface ids)
+fn fan_soup(k: u64) -> Vec<Value> {
+    let chain = |first: u64, tag: u64| -> Value {
+        let es: Vec<Value> = (0..20u64)
+            .map(|i| json!({"as": first + i, "in": if i == 0 { 0 } else { 1000 * tag + 10 * i + 1 }, "eg": if i == 19 { 0 } else { 1000 * tag + 10 * i + 2 }, "mtu": 1400, "peers": []}))
+            .collect();
+        json!({"kind": "nc", "good": true, "es": es})
+    };
+    let mut segs = vec![];
+    for j in 1..=k {
+        segs.push(chain(1, j));
+        segs.push(chain(31, 20 + j));
+    }
+    for j in 1..=k {
+        segs.push(json!({"kind": "core", "good": true, "es": [
+            {"as": 1, "in": 0, "eg": 40000 + j, "mtu": 1400, "peers": []},
+            {"as": 31, "in": 41000 + j, "eg": 0, "mtu": 1400, "peers": []}]}));
+    }
+    segs
+}
+
+/// time of the reference workload right now (minimum of three runs)
+fn reference_us() -> u64 {
+    static REF: std::sync::OnceLock<(Vec<UnsignedPathSegment>, Vec<UnsignedPathSegment>)> = std::sync::OnceLock::new();
+    let (cores, ncs) = REF.get_or_init(|| {
+        let s = build_soup(&json!(fan_soup(6)));
+        (s.cores, s.ncs)
+    });
+    let mut best = u64::MAX;
+    for _ in 0..3 {
+        let (c, n) = (cores.clone(), ncs.clone());
+        let t0 = thread_cpu_us();
+        let _ = catch(|| combine(ia(20), ia(50), c, n));
+        best = best.min(thread_cpu_us() - t0);
+    }
+    best.max(1)
 }
 
 fn ifs_json(ps: &[Vec<(u64, u16)>]) -> Value {
@@ -90,7 +156,7 @@ fn work_case(case: &Value) -> Value {
         let good = run_combine(src, dst, &soup.good_cores, &soup.good_ncs);
         res.push(json!({
             "src": src, "dst": dst, "n": soup.entries,
-            "panic": all.panic, "cpu_us": all.cpu_us, "paths": ifs_json(&all.paths), "inc": all.inconsistent,
+            "panic": all.panic, "cpu_us": all.cpu_us, "ref_us": all.ref_us, "paths": ifs_json(&all.paths), "inc": all.inconsistent,
             "wrong_endpoints": all.wrong_endpoints,
             "gpanic": good.panic, "good": ifs_json(&good.paths), "ginc": good.inconsistent,
         }));
@@ -207,17 +273,20 @@ fn run_watched(w: &mut Option<Watched>, case: &Value) -> CaseOut {
             }
             Err(std::sync::mpsc::RecvTimeoutError::Timeout) => {
                 let cpu = proc_cpu_us(ww.child.id()).saturating_sub(cpu0);
-                // both combine runs of all pairs share the budget: generous factor
-                if cpu > 4 * HARD_CAP_US {
+                if cpu > RUNAWAY_CPU_US {
                     let _ = ww.child.kill();
                     let _ = ww.child.wait();
                     *w = None;
-                    return CaseOut::Died(format!("cpu time {cpu} us exceeds the hard cap"));
+                    return CaseOut::Died(format!("runaway: {cpu} us of CPU without an answer"));
                 }
                 if t0.elapsed() > WALL_LIMIT {
                     let _ = ww.child.kill();
                     let _ = ww.child.wait();
                     *w = None;
+                    // a child that kept computing all the time is an observation, a starved one a tool problem
+                    if cpu > 60_000_000 {
+                        return CaseOut::Died(format!("no answer after {:?} ({cpu} us of CPU)", t0.elapsed()));
+                    }
                     return CaseOut::Tool(format!("no answer after {:?} wall, {cpu} us cpu", t0.elapsed()));
                 }
             }
@@ -268,8 +337,11 @@ fn judge_pair(ops: &str, r: &Value, allnc: bool) -> Vec<Value> {
     }
     let n = r["n"].as_u64().unwrap();
     let cpu = r["cpu_us"].as_u64().unwrap();
-    if cpu > bound_us(n) {
-        pv.push(json!({"key": format!("Bounded:{ops}"), "what": format!("combine({src},{dst}) used {cpu} us of CPU for {n} AS entries (bound {} us)", bound_us(n))}));
+    let refu = r["ref_us"].as_u64().unwrap_or(0);
+    if refu > 0 && cpu > bound_units(n) * refu {
+        pv.push(json!({"key": format!("Bounded:{ops}"), "what": format!(
+            "combine({src},{dst}) used {cpu} us of CPU (minimum of three runs) for an input of size {n}: {} times the reference workload ({refu} us), allowed {}",
+            cpu / refu, bound_units(n))}));
     }
     for (field, which) in [("inc", "full set"), ("ginc", "good part")] {
         for i in r[field].as_array().unwrap() {
@@ -298,8 +370,14 @@ fn replay(inp: &str, outp: &str) {
     let lines = vh_core::read_ndjson(inp);
     let mut w = NdjsonWriter::create(outp);
     let mut worker: Option<Watched> = None;
+    let mut deaths = 0;
     for line in lines.iter() {
         if line.get("ev").is_some() {
+            continue;
+        }
+        if deaths >= 5 {
+            // the code under test kills its process again and again: enough evidence, do not spend hours
+            w.write(&json!({"skipped": true, "pv": [], "conf": true}));
             continue;
         }
         let pairs: Vec<Value> = line["x"].as_array().unwrap().iter().map(|x| json!([x["src"], x["dst"]])).collect();
@@ -310,7 +388,10 @@ fn replay(inp: &str, outp: &str) {
                 eprintln!("tool failure: {m}");
                 std::process::exit(2);
             }
-            CaseOut::Died(m) => json!({"died": m, "pv": [{"key": format!("Total:died:{ops}"), "what": format!("the process running combine() died: {m}")}], "conf": false}),
+            CaseOut::Died(m) => {
+                deaths += 1;
+                json!({"died": m, "pv": [{"key": format!("Total:died:{ops}"), "what": format!("the process running combine() died: {m}")}], "conf": false})
+            }
             CaseOut::Done(v) => {
                 let mut pv = vec![];
                 let mut conf = true;
@@ -528,7 +609,7 @@ fn record(events: &str, results: &str) {
     let mut rng = Rng::new(seed ^ 0x50b9);
     let runs = if thorough { 2000 } else { 400 };
     let mut w = NdjsonWriter::create(events);
-    w.write(&json!({"ev": "meta", "spec": "SegSoup", "seed": seed, "hard_cap_us": HARD_CAP_US}));
+    w.write(&json!({"ev": "meta", "spec": "SegSoup", "seed": seed, "fast_us": FAST_US}));
     let mut worker: Option<Watched> = None;
     let mut pvs: Vec<Value> = vec![];
     let mut stats: HashMap<String, u64> = HashMap::new();
@@ -536,12 +617,41 @@ fn record(events: &str, results: &str) {
     let mut max_segs = 0usize;
     let mut n_events = 0u64;
     let mut nontrivial = 0u64;
+    let mut rec_deaths = 0;
     for run in 0..runs {
+        if rec_deaths >= 5 {
+            break;
+        }
         let (mut segs, ases) = random_topology(&mut rng);
         let mut ops: Vec<&'static str> = vec![];
+        let mut fixed_pairs: Option<Vec<Value>> = None;
+        if run == 1 {
+            // stress "fan": 13 up segments over the same 20 ASes x 14 core segments x 13 down segments over
+            // another 20 ASes (distinct interface ids everywhere): thousands of three-segment solutions
+            segs.clear();
+            segs = fan_soup(13);
+            fixed_pairs = Some(vec![json!([20, 50]), json!([50, 20]), json!([20, 31])]);
+            ops.push("StressFan");
+        } else if run == 2 {
+            // stress "peer flood": few segments whose AS entries carry hundreds of peer entries
+            segs.clear();
+            for k in 0..6u64 {
+                let es: Vec<Value> = (0..8u64)
+                    .map(|i| {
+                        let a = 1 + (k % 2) * 100 + i;
+                        let peers: Vec<Value> = (0..150u64).map(|p| json!({"pas": 200 + (p * 7 + i + k) % 60, "pif": 1 + (p * 13 + k) % 500, "lif": 600 + p})).collect();
+                        json!({"as": a, "in": if i == 0 { 0 } else { 100 * k + 10 + i }, "eg": if i == 7 { 0 } else { 100 * k + 20 + i }, "mtu": 1400, "peers": peers})
+                    })
+                    .collect();
+                segs.push(json!({"kind": "nc", "good": true, "es": es}));
+            }
+            fixed_pairs = Some(vec![json!([8, 1]), json!([108, 101]), json!([8, 108])]);
+            ops.push("StressPeers");
+        }
+        let stress = fixed_pairs.is_some();
         // junk: mutated copies / mutated originals / duplicates / islands, up to 40 segments
         let big = run % 10 == 9;
-        let nmut = if run % 7 == 0 { 0 } else if big { rng.range(20, 40) } else { rng.range(1, 5) };
+        let nmut = if run % 7 == 0 || stress { 0 } else if big { rng.range(20, 40) } else { rng.range(1, 5) };
         for _ in 0..nmut {
             if segs.len() >= 40 {
                 break;
@@ -586,6 +696,9 @@ fn record(events: &str, results: &str) {
             let d = *rng.pick(&ases);
             pairs.push(json!([s, d]));
         }
+        if let Some(fp) = fixed_pairs {
+            pairs = fp;
+        }
         let case = json!({"soup": segs, "pairs": pairs});
         // the descriptor TLC classifies (same shape as the specification's soup; MTUs are not needed there)
         let desc: Vec<Value> = segs
@@ -605,8 +718,9 @@ fn record(events: &str, results: &str) {
                 std::process::exit(2);
             }
             CaseOut::Died(m) => {
+                rec_deaths += 1;
                 pvs.push(json!({"key": format!("Total:died:{opk}"), "what": format!("the process running combine() died: {m}"), "run": run, "case": case}));
-                w.write(&json!({"ev": "soup", "run": run, "soup": desc, "src": 0, "dst": 0, "n": 0, "died": true, "panic": false, "cpu_us": 0, "pa": [], "pg": [], "inc": 0}));
+                w.write(&json!({"ev": "soup", "run": run, "soup": desc, "src": 0, "dst": 0, "n": 0, "died": true, "panic": false, "cpu_us": 0, "ref_us": 0, "pa": [], "pg": [], "inc": 0}));
                 n_events += 1;
             }
             CaseOut::Done(v) => {
@@ -626,7 +740,7 @@ fn record(events: &str, results: &str) {
                         }
                     }
                     w.write(&json!({"ev": "soup", "run": run, "soup": desc, "src": r["src"], "dst": r["dst"], "n": r["n"], "died": false,
-                        "panic": panicked, "cpu_us": cpu.min(2_000_000_000), "pa": pa, "pg": pg, "inc": ninc}));
+                        "panic": panicked, "cpu_us": cpu.min(2_000_000_000), "ref_us": r["ref_us"].as_u64().unwrap_or(0).min(2_000_000_000), "pa": pa, "pg": pg, "inc": ninc}));
                     n_events += 1;
                 }
             }
